@@ -12,6 +12,8 @@
    and returns exactly the bytes behind the head -- the statements C01/C02 prove for Model/Head.v. *)
 From SV Require Import Base.Bytes Base.BytesP Model.Headers Proofs.HeadersP Model.RustStr
      Proofs.RustStrP Model.Request Spec.Framing Proofs.RequestP Proofs.StreamP Proofs.FramingP.
+From SV Require Model.Head Spec.Rfc7230.
+From SV Require Import Base.IO Model.PipelineInst Proofs.PipelineInstP.
 
 (* C03.1  framing_agrees: for every method and header list the classification made by the code
    equals the decision table of the statement (cookie syntax errors, which are not framing, aside). *)
@@ -279,6 +281,94 @@ Example c03_nonvacuous :
   /\ spec_cookies (snd ex_h1) <> None.
 Proof. split; [vm_compute; reflexivity|]. split; [split; vm_compute; reflexivity|]. split; [reflexivity|vm_compute; discriminate]. Qed.
 
+(* ---------------------------------------------------------------------------------------------
+   C03.13  Request-smuggling freedom for the CONCRETE head reader of Model/Head.v (no abstract
+   reader hypothesis; the only external hypothesis is url_canonical about the url crate, exactly as
+   C02 states it).  Model/PipelineInst.v: [read_head_conc] = Head.head_spec on a shifted buffer;
+   [conc_pipeline] = the fuelled loop Head.read_request_head (any FixedBuf state, any socket read
+   schedule) followed by request_of_head and read_body_to_vec, message after message.
+   Messages are (method, target, fields with their optional white space, body), rendered with the
+   reference renderer of Spec/Rfc7230.v; [cframed cap small c]: token method, canonical origin-form
+   target, valid fields, rendered head + CRLFCRLF at most [cap] bytes, well-formed cookies, no
+   Transfer-Encoding, exactly one Content-Length = |body| <= small_body_len. *)
+Theorem c03_concrete_reader_inverts_renderer :
+  forall url_parse,
+    (forall t, Rfc7230.canonical_target t = true -> url_parse t = Some (Rfc7230.path_of t, Rfc7230.query_of t)) ->
+    forall cap m t fs rest,
+      is_token m = true -> Rfc7230.canonical_target t = true -> forallb Rfc7230.field_ok fs = true ->
+      (length (Rfc7230.render_head m t fs) + 4 <= cap)%nat ->
+      read_head_conc url_parse cap (Rfc7230.render_head m t fs ++ Head.crlf2 ++ rest)
+      = Some (Head.mk_head m t (Rfc7230.path_of t) (Rfc7230.query_of t) (map Rfc7230.field_pair fs), rest).
+Proof. exact read_head_conc_render. Qed.
+
+(* the abstract loop of Model/Request.v instantiated with the schedule-free concrete reader *)
+Theorem c03_pipeline_roundtrip_concrete_head_spec :
+  forall url_parse,
+    (forall t, Rfc7230.canonical_target t = true -> url_parse t = Some (Rfc7230.path_of t, Rfc7230.query_of t)) ->
+    forall cap small msgs tail buf stream splits scheds,
+      Forall (cframed cap small) msgs -> buf ++ stream = flat_map crender msgs ++ tail ->
+      fst (pipeline Head.head Head.h_method Head.h_headers (read_head_conc url_parse cap) small true true
+                    (length msgs) buf stream splits scheds) = map cexpected msgs /\
+      fst (snd (pipeline Head.head Head.h_method Head.h_headers (read_head_conc url_parse cap) small true true
+                         (length msgs) buf stream splits scheds)) ++
+      snd (snd (pipeline Head.head Head.h_method Head.h_headers (read_head_conc url_parse cap) small true true
+                         (length msgs) buf stream splits scheds)) = tail.
+Proof. exact pipeline_roundtrip_head_spec. Qed.
+
+(* the fully concrete loop (fuelled head reads on the FixedBuf model under any schedule) computes the
+   schedule-free specification: a function of the unread bytes only -- for every url_parse *)
+Theorem c03_concrete_loop_is_schedule_free :
+  forall url_parse cap small n fuel b s scheds,
+    Head.fb_wf cap b -> (cap + 2 <= fuel)%nat ->
+    (fst (conc_pipeline url_parse cap small n fuel b s scheds),
+     fst (snd (conc_pipeline url_parse cap small n fuel b s scheds)) ++
+     snd (snd (conc_pipeline url_parse cap small n fuel b s scheds)))
+    = pipeline_spec Head.head Head.h_method Head.h_headers (read_head_conc url_parse cap) small true true n
+                    (Head.fb_data b ++ in_bytes s).
+Proof. exact conc_pipeline_abs. Qed.
+
+(* reading message after message with the concrete reader yields exactly the messages and leaves
+   exactly the tail *)
+Theorem c03_pipeline_roundtrip_concrete :
+  forall url_parse,
+    (forall t, Rfc7230.canonical_target t = true -> url_parse t = Some (Rfc7230.path_of t, Rfc7230.query_of t)) ->
+    forall cap small msgs tail fuel b s scheds,
+      Forall (cframed cap small) msgs ->
+      Head.fb_wf cap b -> (cap + 2 <= fuel)%nat ->
+      Head.fb_data b ++ in_bytes s = flat_map crender msgs ++ tail ->
+      fst (conc_pipeline url_parse cap small (length msgs) fuel b s scheds) = map cexpected msgs /\
+      fst (snd (conc_pipeline url_parse cap small (length msgs) fuel b s scheds)) ++
+      snd (snd (conc_pipeline url_parse cap small (length msgs) fuel b s scheds)) = tail.
+Proof. exact conc_pipeline_roundtrip. Qed.
+
+(* non-vacuity: POST /a with "Content-Length: 5" + "hello", then GET /b?x=1 with "X-A:<HTAB>v w<SP>" and
+   "Content-Length:0", then a stray byte; a 52-byte FixedBuf that already holds the first 7 bytes at
+   read index 3, the socket delivering 1, 2, 40, 1, 1, ... bytes per read, byte-at-a-time body reads *)
+Definition cx_u (t : bytes) : option (bytes * option bytes) := Some (Rfc7230.path_of t, Rfc7230.query_of t).
+Definition cx_cl : bytes := [67;111;110;116;101;110;116;45;76;101;110;103;116;104].
+Definition cx_m1 : cmsg :=
+  ([80;79;83;84], [47;97], [Rfc7230.mk_field cx_cl [32] [53] []], [104;101;108;108;111]).
+Definition cx_m2 : cmsg :=
+  ([71;69;84], [47;98;63;120;61;49],
+   [Rfc7230.mk_field [88;45;65] [9] [118;32;119] [32]; Rfc7230.mk_field cx_cl [] [48] []], []).
+Definition cx_stream : bytes := crender cx_m1 ++ crender cx_m2 ++ [90].
+Example c03_concrete_nonvacuous :
+  (forall t, Rfc7230.canonical_target t = true -> cx_u t = Some (Rfc7230.path_of t, Rfc7230.query_of t)) /\
+  Forall (cframed 52 65536) [cx_m1; cx_m2] /\
+  conc_pipeline cx_u 52 65536 2 54 (Head.mk_fbuf 3 (firstn 7 cx_stream))
+                (mk_in (skipn 7 cx_stream) [1; 2; 40]%nat false) [[1%nat]; [1%nat]]
+  = ([cexpected cx_m1; cexpected cx_m2], ([], [90])) /\
+  cexpected cx_m1 =
+  MReq (Head.mk_head [80;79;83;84] [47;97] [47;97] None [(cx_cl, [53])])
+       (mkRequest [80;79;83;84] [(cx_cl, [53])] [] CtNone false false false (Some 5) (PendingKnown 5))
+       (BrVec [104;101;108;108;111]).
+Proof.
+  split; [intros t _; reflexivity|]. split.
+  - repeat constructor; try (vm_compute; reflexivity); try (vm_compute; discriminate);
+      try (vm_compute; intros; discriminate).
+  - split; vm_compute; reflexivity.
+Qed.
+
 Print Assumptions c03_framing_agrees.
 Print Assumptions c03_request_is_function_of_head.
 Print Assumptions c03_framing_never_ignored.
@@ -306,3 +396,7 @@ Print Assumptions c03_prefix_d3_refuted.
 Print Assumptions c03_prefix_d3_smuggling_refuted.
 Print Assumptions c03_prefix_d3_transfer_encoding_refuted.
 Print Assumptions c03_prefix_d4_refuted.
+Print Assumptions c03_concrete_reader_inverts_renderer.
+Print Assumptions c03_pipeline_roundtrip_concrete_head_spec.
+Print Assumptions c03_concrete_loop_is_schedule_free.
+Print Assumptions c03_pipeline_roundtrip_concrete.
